@@ -2493,7 +2493,8 @@ class SSHConnection(SSHPacketHandler, asyncio.Protocol):
         self.logger.debug1('Completed key exchange')
 
     def _process_userauth_request(self, _pkttype: int, _pktid: int,
-                                  packet: SSHPacket) -> None:
+                                  packet: SSHPacket) -> \
+            Optional[Awaitable[None]]:
         """Process a user authentication request"""
 
         username_bytes = packet.get_string()
@@ -2519,6 +2520,17 @@ class SSHConnection(SSHPacketHandler, asyncio.Protocol):
             if self._auth_final:
                 raise ProtocolError('Unexpected userauth request')
         else:
+            # A new request supersedes the attempt in progress right away
+            # (not after begin_auth has been awaited), and restrictions
+            # captured from an abandoned credential must not survive it
+            if self._auth:
+                self._auth.cancel()
+                self._auth = None
+
+            server_conn = cast('SSHServerConnection', self)
+            server_conn._key_options = {}
+            server_conn._cert_options = None
+
             if username != self._username:
                 self.logger.info('Beginning auth for user %s', username)
 
@@ -2527,7 +2539,13 @@ class SSHConnection(SSHPacketHandler, asyncio.Protocol):
             else:
                 begin_auth = False
 
-            self.create_task(self._finish_userauth(begin_auth, method, packet))
+            # Returning the coroutine makes _recv_packet pause input until
+            # it has finished, so that requests are processed strictly one
+            # after the other and self._username cannot change underneath
+            # a pending begin_auth or validator
+            return self._finish_userauth(begin_auth, method, packet)
+
+        return None
 
     async def _finish_userauth(self, begin_auth: bool, method: bytes,
                                packet: SSHPacket) -> None:
